@@ -113,8 +113,13 @@ Proof. exact (ws_closed_only_given c mv frames ops x). Qed.
 
 Theorem c11_ws_closed_release_all_returned c mv frames ops :
   let w := fst (wrun c (w0 mv frames) ops) in
-  wrelease c = true -> wclosed w = true -> live_at_end (trace (wa w)) = [].
+  wrelease c = true -> wrecov c = true -> wclosed w = true -> live_at_end (trace (wa w)) = [].
 Proof. exact (ws_closed_release_all_returned c mv frames ops). Qed.
+(* (wrecov: the executor that runs the handlers recovers their panics.  When a handler's panic escapes into Parse's
+   recover - blocking mode or a plain Execute, see f_mpanic / f_fpanic - the payload handed to that handler is still
+   released exactly once, by the handler step (c11_ws_discipline covers those runs); a frame copy that was waiting for
+   its own handler is dropped without being returned: it is accounted for in [given], which is why the statement above
+   asks for wrecov.) *)
 
 (* ---- Part 5: the HTTP BodyReader ---- *)
 Theorem c11_body_discipline mx cs ops : disciplined (body_trace mx cs ops).
@@ -140,7 +145,7 @@ Proof. exact (body_close_returns_all mx cs ops). Qed.
 (* non-vacuity: a chunked response whose second conn.Write fails performs and passes Malloc/Append/Use/Free events;
    the pattern of the repaired defect D8 (free, keep appending, free again) is rejected at the Append;
    a write queue that coalesces, re-allocates, is flushed piecewise and closed with a backlog; a fragmented compressed
-   WebSocket message with a frame handler; a body read across two buffers *)
+   WebSocket message with a frame handler whose message handler panics into Parse's recover (released once, frame copy dropped); a body read across two buffers *)
 Example c11_nonvacuous :
   let q := Build_req [72;84;84;80;47;49;46;49]%N true false in
   let t := exchange_trace q [true] [false; true] [HWrite 10; HFlush; HWrite 70000] in
@@ -148,11 +153,11 @@ Example c11_nonvacuous :
   check_trace [EMalloc 0; EAppend 0 0; EUse 0; EFree 0; EAppend 0 0; EFree 0] = Some (4, VAppendAfterFree) /\
   wq_trace 0%Z [true] [64%N] [QWrite 100000 [Took 40]; QWrite 10 []; QWrite 100 []; QFlush [Took 70000; EIntr]; QClose]
     = [EMalloc 0; EMalloc 1; EMalloc 2; EFree 1; EAppend 2 3; EUse 0; EFree 0; EFree 3] /\
-  ws_trace (mkcfg true true true true 0 0) [] 
-     [mkf ODataFirst false true false 2 true 10 false false false IOk 0 0; mkf OCont true false false 2 true 5 false false false IOk 40 1]
+  ws_trace (mkcfg true true true true 0 0 false) [] 
+     [mkf ODataFirst false true false 2 true 10 false false false false false IOk 0 0; mkf OCont true false false 2 true 5 false false false true false IOk 40 1]
      [WParse 16; WParse 11; WClose]
     = [EMalloc 0; EMalloc 1; EMalloc 2; EFree 0; EUse 1; EFree 1; EMalloc 3; EMalloc 4; EAppend 2 2; EMalloc 5; EAppend 5 5; EFree 2;
-       EFree 3; EUse 5; EFree 5; EUse 4; EFree 4] /\
+       EFree 3; EUse 5; EFree 5] /\
   body_trace 0 [] [BAppend 10; BAppend 5; BRead 12; BClose] = [EMalloc 0; EMalloc 1; EUse 0; EFree 0; EUse 1; EFree 1].
 Proof. vm_compute. repeat split. Qed.
 
